@@ -110,6 +110,7 @@ const (
 	limCfgIdle         = " (idle timeout comes from Config.MaxIdleTimeout, not from the spec)"
 	limSigStall        = "stream stalled for good although the client application keeps reading: the server used the advertised window to the full and no further credit arrived"
 	limCfgStall        = " (window updates are computed from Config.InitialStreamReceiveWindow / InitialConnectionReceiveWindow, not from the advertised window)"
+	limCfgStallType    = " (every stream gets the receive window of the stream type with the largest advertised window: streams of a type with a smaller advertised window never reach the point where their window update is sent)"
 	limSigOther        = "client raised a transport error against a server that stayed within the advertised limits: "
 	limSigReach        = "a conformant server could not use an advertised limit to the full on a fault-free network: "
 	limSigRecord       = "the client's own record of its transport parameters (qlog parameters_set) differs from the bytes it sent: "
@@ -368,8 +369,36 @@ func genLimits(seed uint64, tier string) KScenario {
 		expect = a(limIDMaxData)
 	}
 	if expect > 3<<20 && !(tier == "thorough" && r.P(0.5)) && !r.P(0.18) {
-		// keep the scenario, make the user windows the binding ones (default Config: the push ends at the Config window)
-		sc.Cfg.Win, sc.Cfg.MaxWin = [4]uint64{}, [4]uint64{}
+		// most of the time a derived list with windows that cost less to fill (the full windows of the built-in lists
+		// are reached by the remaining share, by the boost below and by the sweep)
+		set := func(id uint64, v int64) {
+			for i := range sc.TPs {
+				if sc.TPs[i].ID == id {
+					sc.TPs[i].V = v
+					adv[id] = v
+					return
+				}
+			}
+			sc.TPs = append(sc.TPs, LimTP{ID: id, V: v})
+			adv[id] = v
+		}
+		for _, id := range []uint64{limIDUni, limIDBidiLocal, limIDBidiRemote} {
+			if adv[id] > 1<<20 {
+				set(id, int64(r.Pick(65536, 200000, 524288, 1<<20)))
+			}
+		}
+		if adv[limIDMaxData] > 2<<20 {
+			set(limIDMaxData, int64(r.Pick(300000, 786432, 2<<20)))
+		}
+		// the user Config follows the new values
+		if sc.Cfg.Win[0] > 4<<20 {
+			sc.Cfg.Win[0] = uint64(adv[limIDUni]) * uint64(r.Pick(1, 2, 8))
+			sc.Cfg.MaxWin[0] = 0
+		}
+		if sc.Cfg.Win[1] > 8<<20 {
+			sc.Cfg.Win[1] = uint64(adv[limIDMaxData]) * uint64(r.Pick(1, 2, 8))
+			sc.Cfg.MaxWin[1] = 0
+		}
 	}
 	if r.P(0.012) {
 		// now and then the full boundary of a built-in list: Config not the binding side, no faults
@@ -913,7 +942,11 @@ func runLimits(t *testing.T, ksc KScenario, res *KResult) {
 				sig := limSigIdleEarly
 				if cfgIdle < effD {
 					sig += limCfgIdle
-					res.Probe("finding:idle-timeout-from-config")
+					if adv.idleMS == 0 {
+						res.Probe("finding:idle-timeout-from-config:spec-advertises-none")
+					} else {
+						res.Probe("finding:idle-timeout-from-config:spec-advertises-one")
+					}
 				}
 				report("C12", sig, "%s: client idle timeout %v after the last packet it provably processed; advertised max_idle_timeout client %d ms, server %d ms; client Config.MaxIdleTimeout %v",
 					phase, gap, adv.idleMS, srvAdv, cfgIdle)
@@ -1194,7 +1227,11 @@ func runLimits(t *testing.T, ksc KScenario, res *KResult) {
 			if !reached && !capped && faultFree() {
 				// no progress for a long time, or the connection idled out meanwhile
 				sig := limSigStall
-				if adv.streamWindow(id) < cfgStream || adv.maxData < cfgConn {
+				switch {
+				case adv.streamWindow(id) < max(adv.uni, adv.bidiLocal, adv.bidiRemote):
+					sig += limCfgStallType
+					res.Probe("finding:one-receive-window-for-all-stream-types")
+				case adv.streamWindow(id) < cfgStream || adv.maxData < cfgConn:
 					sig += limCfgStall
 					res.Probe("finding:window-updates-from-config")
 				}
